@@ -26,6 +26,11 @@ def make_world(root):
         p = os.path.join(root, "crate", "fixture", rel)
         os.makedirs(os.path.dirname(p), exist_ok=True)
         open(p, "w").write(data)
+    # a directory below the crate root that is spelled like the default buildpack reference: a
+    # reference is an opaque string for pack (id, URI, path relative to *pack's* cwd), never to be
+    # reinterpreted because something with that name exists next to the test crate
+    os.makedirs(os.path.join(root, "crate", "some", "bp"))
+    open(os.path.join(root, "crate", "some", "bp", "buildpack.toml"), "w").write("")
     return root
 
 
